@@ -73,7 +73,7 @@ pub fn run_meta(rng: &mut Rng, count: usize, thorough: bool, extra: &[String], o
         // the base graph, compact: labels 1..=n, attacks as label pairs
         let (n, atts0): (usize, Vec<(usize, usize)>) = loop {
             let g = if large {
-                gen_large(rng, rng_range(rng, 20, if thorough { 300 } else { 120 }))
+                { let k = rng_range(rng, 20, if thorough { 300 } else { 120 }); gen_large(rng, k) }
             } else {
                 gen_af(rng, if thorough { 8 } else { 7 })
             };
@@ -121,7 +121,8 @@ pub fn run_meta(rng: &mut Rng, count: usize, thorough: bool, extra: &[String], o
         rng.shuffle(&mut atts1);
         let af1 = build_labelled(&decl, &atts1);
         for l in queried.iter() {
-            out.out(&format!("ren {} {}", l, row(rng, &af1, ren(*l), probs, rng.chance(1, 2))));
+            let with_cert = rng.chance(1, 2);
+            out.out(&format!("ren {} {}", l, row(rng, &af1, ren(*l), probs, with_cert)));
         }
         // (2) attack lines reordered and repeated (through the ICCMA reader)
         let mut lines: Vec<(usize, usize)> = atts0.iter().map(|(a, b)| (a - 1, b - 1)).collect();
